@@ -318,6 +318,7 @@ class Run:
             pass
         self.iso = new
         self.model.generation += 1
+        self.model.on_reopen()
         self.model.zero_shared = True
         self.model.classes.add('reopen')
         return 'reopen'
